@@ -27,6 +27,9 @@ THEOREMS = [
     "Vinegar.C11.compile_fuel_adequate_clean",
     "Vinegar.C11.linear_bound_fails",
     "Vinegar.C11.aliasTree_result",
+    "Vinegar.C11.globMatch_star",
+    "Vinegar.C11.globMatch_plain",
+    "Vinegar.C11.globMatch_prefix_star",
 ]
 TRUSTED_BASE = Y.TRUSTED_BASE
 ASSUMPTIONS = Y.ASSUMPTIONS
@@ -52,10 +55,26 @@ def run_impl(case, env):
     return yaml_adapter.run_c11(Y.strip_meta(case))
 
 
+def _cps(t):
+    return [ord(c) for c in t]
+
+
+def _eval_requests(case, obs):
+    """the top file's target expressions, to be evaluated by the Lean matcher model on this system"""
+    pd = case.get("pdata") or {}
+    data = [[_cps(k), _cps("" if v is None else v if isinstance(v, str) else str(v))]
+            for k, v in pd.items() if isinstance(k, str)]
+    out = []
+    for expr, m in obs.get("top_matches", []):
+        if m in ("yes", "no") and all(not (0xD800 <= ord(c) <= 0xDFFF) for c in expr):
+            out.append({"op": "matcher.eval", "expr": _cps(expr), "id": _cps(case["id"]), "data": data})
+    return out
+
+
 def model_requests(case, obs):
     if "view" not in obs:
         return []
-    return [Y.c11_request(case, obs)]
+    return [Y.c11_request(case, obs)] + _eval_requests(case, obs)
 
 
 def judge(case, obs, resps):
@@ -80,6 +99,21 @@ def judge(case, obs, resps):
         agree, detail = False, {"model_fails_own_checker": True, "model": model, "doc": r["doc"]}
     elif not agree or not spec_ok:
         detail = {"impl": impl, "model": model, "doc": r["doc"]}
+    # the verdicts of the real matcher on the top file's expressions (shipped to the model as facts) against the value
+    # the Lean matcher model gives them (literal and bracket-free glob terms on ASCII text; `null` elsewhere)
+    pairs = [(e, m) for e, m in obs.get("top_matches", []) if m in ("yes", "no") and
+             all(not (0xD800 <= ord(c) <= 0xDFFF) for c in e)]
+    for (expr, m), resp in zip(pairs, resps[1:]):
+        ev = resp.get("ok")
+        if ev is None:
+            continue
+        if ev["value"] is not None and ev["value"] != (m == "yes") and spec_ok:
+            spec_ok, clause = False, "target-expression-value"
+            detail = {"expression": expr, "id": case["id"], "preceding_data": case.get("pdata"),
+                      "matcher_says": m, "documented_value": ev["value"]}
+        elif ev["value"] is None and ev["error"] is not None and agree:
+            agree = False
+            detail = detail or {"expression": expr, "lean_parser_rejects": ev["error"], "matcher_says": m}
     kind = f"{style}/" + ("ok" if impl[0] == "ok" else "err:" + (model[2] if model[0] == "err" else impl[1]))
     nontrivial = (impl[0] == "ok" and len(impl[1]) > 0) or (impl[0] == "err" and not str(impl[2]).startswith("top"))
     return Judgement(case, spec_ok, agree, detail, kind=kind, nontrivial=nontrivial, failed_clause=clause)
